@@ -52,12 +52,19 @@ func role(active bool) string {
 	return "passive"
 }
 
+func rname(r *lc.Rig) string {
+	if r.Secs1 {
+		return "secs1-" + role(r.Active)
+	}
+	return role(r.Active)
+}
+
 // judge applies the implementation-level oracle to one history's log and writes the case line.
 func judge(c *vh.Ctx, r *lc.Rig, tag string) {
 	evs := r.Events()
 	closed := false // a calm Close returned, no Open call since
 	open, unknown := false, false
-	desc := func() string { return tag + " " + role(r.Active) + " | " + lc.Tokens(evs) }
+	desc := func() string { return tag + " " + rname(r) + " | " + lc.Tokens(evs) }
 	abandoned := false
 	for _, e := range evs {
 		if abandoned {
@@ -140,7 +147,7 @@ func checkCloseLatency(c0 *vh.Ctx, r *lc.Rig, res lc.CloseRes, tag string) {
 		if res.Blocked {
 			what = "C10: Close blocked behind a blocking Open that has not reached Selected"
 		}
-		c.Fail(what, fmt.Sprintf("%s %s closeTimeout_ms=%d blocked_by_open=%v elapsed_ms>%d", tag, role(r.Active),
+		c.Fail(what, fmt.Sprintf("%s %s closeTimeout_ms=%d blocked_by_open=%v elapsed_ms>%d", tag, rname(r),
 			r.CloseTimeout.Milliseconds(), res.Blocked, (r.CloseTimeout + closeSlack).Milliseconds()))
 	}
 	if res.Calm && res.Goroutines != 0 {
@@ -278,12 +285,17 @@ func seqPass(c *vh.Ctx) {
 	ensureOpenPass(c)
 	for i := 0; i < c.N; i++ {
 		active := i%2 == 0
+		s1 := i%4 >= 2 // SECS-I over TCP: same engine, other transport
 		cycles := 1 + c.Rng.Intn(3)
 		cfg := lc.DefaultCfg()
 		if c.Rng.Intn(2) == 0 {
 			cfg.Linktest = 10 * time.Millisecond
 		}
-		r, err := lc.New(active, cfg, func(int) lc.Plan { return lc.Normal() })
+		mkRig := lc.New
+		if s1 {
+			mkRig = lc.NewSecs1
+		}
+		r, err := mkRig(active, cfg, func(int) lc.Plan { return lc.Normal() })
 		if err != nil {
 			c.Fail("C10: cannot build a connection", err.Error())
 			continue
@@ -318,10 +330,15 @@ func seqPass(c *vh.Ctx) {
 			if r.Conn.State() != hsms.SelectedState {
 				c.Fail("C10: a refused Open disturbed the session", fmt.Sprintf("%s cycle %d", tag, k))
 			}
-			if ok, err, pn := r.SendRoundTrip(time.Second); !ok || pn != nil {
+			if s1 {
+				// the scripted SECS-I peer does not speak E4: the send must FAIL cleanly (bounded, no panic)
+				if ok, _, pn := r.SendRoundTrip(time.Second); ok || pn != nil {
+					c.Fail("C10: SECS-I send against a mute line did not fail cleanly", fmt.Sprintf("%s cycle %d ok=%v %v", tag, k, ok, pn))
+				}
+			} else if ok, err, pn := r.SendRoundTrip(time.Second); !ok || pn != nil {
 				c.Fail("C10: round trip on a (re)opened connection failed", fmt.Sprintf("%s cycle %d: %v %v", tag, k, err, pn))
 			}
-			c.Count(fmt.Sprintf("seq/%s/cycle", role(active)))
+			c.Count(fmt.Sprintf("seq/%s/cycle", rname(r)))
 			res := r.Close()
 			checkCloseLatency(c, r, res, tag)
 			if res.Class != "ok" {
@@ -396,7 +413,11 @@ func histPass(c *vh.Ctx) {
 			cfg.ConnectTimeout = 25 * time.Millisecond
 		}
 		planMu := &rmu
-		r, err := lc.New(active, cfg, func(n int) lc.Plan {
+		mkRig := lc.New
+		if c.Rng.Intn(4) == 0 {
+			mkRig = lc.NewSecs1
+		}
+		r, err := mkRig(active, cfg, func(n int) lc.Plan {
 			if n < 0 { // listen call
 				planMu.Lock()
 				bad := c.Rng.Intn(12) == 0
@@ -499,7 +520,7 @@ func histPass(c *vh.Ctx) {
 		select {
 		case <-done:
 		case <-time.After(20 * time.Second):
-			c.Fail("C10: an API call blocked beyond every documented bound (history did not finish in 20 s)", tag+" "+role(active))
+			c.Fail("C10: an API call blocked beyond every documented bound (history did not finish in 20 s)", tag+" "+rname(r))
 		}
 		close(stop)
 		wg.Wait()
@@ -510,7 +531,7 @@ func histPass(c *vh.Ctx) {
 			c.Fail("C10: harness: final Close was not calm", tag)
 		}
 		r.Shutdown()
-		c.Count("hist/" + role(active))
+		c.Count("hist/" + rname(r))
 		judge(c, r, tag)
 	}
 }
